@@ -265,18 +265,42 @@ def campaign_text_slots(ck: Check) -> None:
     camp.wall_s = time.time() - t0
 
 
+def _campaign_templates(ck: Check, quick: bool) -> None:
+    """Lean interpreter of the generated template ASTs vs the real Jinja templates (vlib/props/tpl_campaign.py)"""
+    try:
+        from . import tpl_campaign
+    except ImportError:
+        return
+    tpl_campaign.campaign_templates(ck, 60 if quick else 600)
+
+
 def run(ck: Check) -> None:
     quick = ck.tier == "quick"
-    from ..translate import esc, templates
+    from ..translate import esc, template_ast, templates
+    from . import tpl_search
 
     ck.translate("EscTables", esc.generate())
     ck.translate("Templates", templates.generate())
+    # the templates themselves, as a deep-embedded AST from jinja2's own parser: the template theorems
+    # (class_body_nonempty, class_body_lines_indented, …) are re-checked by the kernel against what the sources say now
+    ck.translate("TemplateAst", template_ast.generate())
+    ck.search_hooks.append(tpl_search.search)
     ck.prove()
     ck.assumptions += [
         "no Python grammar is modelled: grammatical validity of the emitted token skeletons is established by ast.parse(feature_version=target) over the campaign, not by a theorem",
         "the two fix-point loops of the JSON-Schema parser are modelled abstractly (a set that only grows inside the finite set of $ref strings of the document); that the code's sets only grow is by reading",
         "only Python 3.12 is available: other targets are checked with ast.parse(feature_version=…) only",
     ]
+    ck.assumptions += [
+        "template theorems: Jinja2 semantics are those of the interpreter Dcg/Model/Template (validated against the real "
+        "templates on every run by the campaign 'templates: Lean interpreter vs the real Jinja templates'); interpolated values "
+        "are assumed to satisfy the invariant of their reviewed site class (one line, not starting with a blank, not the keyword "
+        "class; header sites without '#'); docstring text needs no assumption",
+        "pydantic/Config.jinja2: `class Config:` has a body only under the invariant of model/pydantic/base_model.py that a "
+        "Config object has at least one field set (theorem config_class_body_nonempty is conditional on it)",
+    ]
+    _campaign_templates(ck, quick)
+    tpl_search.self_test(ck)
     campaign_repr(ck, 1500 if quick else 20000)
     campaign_text_slots(ck)
     campaign_e2e(ck, 150 if quick else 2500, 200 if quick else 3500)
